@@ -113,6 +113,19 @@ def check(ctx: Ctx):
     c06.check_kernels(ctx)
     c06.check_selection(ctx)
     c06.check_registry(ctx)
+    from . import c04, c07, c09
+
+    c03._guarded(ctx, "R09.1", c09.check_codec_width)
+    c03._guarded(ctx, "R09.1", c09.check_codec_width_relational)
+    c03._guarded(ctx, "R09.2", c09.check_crop_width)
+    c04.check_chained_replacement(ctx)
+    c03._guarded(ctx, "R04.2", c04.check_relabel)
+    c07.check_no_wraparound(ctx)
+    c03._guarded(ctx, "R07.1", c07.check_chain)
+    c03._guarded(ctx, "R07.4", c07.check_edt)
+    c03._guarded(ctx, "R08.4", c08.check_zero_helper)
+    c03._guarded(ctx, "R02.4", c02.check_reducers)
+    c03._guarded(ctx, "R02.5", c02.check_counting)
 
 
 _E = "panoptica/panoptica_evaluator.py"
